@@ -74,7 +74,11 @@ def gen_store(rng, tier, seed):
             ops.append(['get_all', ns])
         else:
             ops.append(['get_resolving_keys', ns])
-    return {'buffer': rng.choice([16, 64, 256, 8192]), 'ops': ops, 'fault': rng.choice(['crash', 'crash', 'eio', 'enospc']),
+    buffer = rng.choice([16, 64, 256, 8192])
+    # every file-system step of every mutating op is a fault point and costs one re-run of the history: a small write buffer makes
+    # many steps per save, so long histories only go with large buffers (keeps one case well under the per-run wall limit)
+    ops = ops[:{16: 7, 64: 12}.get(buffer, len(ops))]
+    return {'buffer': buffer, 'ops': ops, 'fault': rng.choice(['crash', 'crash', 'eio', 'enospc']),
             'precreate_dir': rng.random() < 0.5, 'long_lived': rng.random() < 0.5}
 
 
